@@ -5,6 +5,7 @@ import (
 	"go/types"
 	"sort"
 	"strings"
+	"sync"
 
 	"golang.org/x/tools/go/ssa"
 )
@@ -354,12 +355,76 @@ func (p *Prog) contexts() *ctxInfo {
 	return ci
 }
 
+// instrsOf: the instructions of f that can execute. A block that is entered
+// only over the untaken edge of a test with a constant condition
+// (`if false && …`, `if debug {…}` with a constant) is statically dead: its
+// code is treated like deleted code, not like guarded code.
 func instrsOf(f *ssa.Function) []ssa.Instruction {
 	var out []ssa.Instruction
+	live := liveBlocks(f)
 	for _, b := range f.Blocks {
+		if live != nil && !live[b] {
+			continue
+		}
 		out = append(out, b.Instrs...)
 	}
 	return out
+}
+
+var (
+	liveMu   sync.Mutex
+	liveMemo = map[*ssa.Function]map[*ssa.BasicBlock]bool{}
+)
+
+// liveBlocks returns the blocks reachable from the entry when constant tests
+// take their only possible edge; nil when every block is (no constant tests).
+func liveBlocks(f *ssa.Function) map[*ssa.BasicBlock]bool {
+	if len(f.Blocks) == 0 {
+		return nil
+	}
+	liveMu.Lock()
+	defer liveMu.Unlock()
+	if m, ok := liveMemo[f]; ok {
+		return m
+	}
+	hasConst := false
+	for _, b := range f.Blocks {
+		if i := blockIf(b); i != nil {
+			if _, ok := constBool(i.Cond); ok {
+				hasConst = true
+			}
+		}
+	}
+	if !hasConst {
+		liveMemo[f] = nil
+		return nil
+	}
+	live := map[*ssa.BasicBlock]bool{}
+	work := []*ssa.BasicBlock{f.Blocks[0]}
+	if f.Recover != nil {
+		work = append(work, f.Recover)
+	}
+	for len(work) > 0 {
+		b := work[len(work)-1]
+		work = work[:len(work)-1]
+		if live[b] {
+			continue
+		}
+		live[b] = true
+		succs := b.Succs
+		if i := blockIf(b); i != nil && len(b.Succs) == 2 {
+			if v, ok := constBool(i.Cond); ok {
+				if v {
+					succs = b.Succs[:1]
+				} else {
+					succs = b.Succs[1:]
+				}
+			}
+		}
+		work = append(work, succs...)
+	}
+	liveMemo[f] = live
+	return live
 }
 
 // ---------------------------------------------------------------------------
